@@ -459,6 +459,18 @@ func entityTerm(fn *ssa.Function) (term string, kind string) {
 				return t, "thunk"
 			}
 		case sig.Recv() != nil:
+			// the model decides "method of an instantiated type" by the wrapper's receiver having type arguments; a
+			// non-generic method promoted into an instantiated struct (or the converse) is outside the model
+			if obj, ok := fn.Object().(*types.Func); ok {
+				inst := obj.Origin() != obj
+				rt := sig.Recv().Type()
+				if p, ok := rt.(*types.Pointer); ok {
+					rt = p.Elem()
+				}
+				if n, ok := types.Unalias(rt).(*types.Named); ok && (n.TypeArgs().Len() > 0) != inst {
+					fail("wrapper whose receiver and wrapped method disagree on being instantiated")
+				}
+			}
 			if t, local := synthTerm("WR", "", sig.Recv().Type(), name); local {
 				return t, "local-wrapper"
 			} else {
